@@ -1,5 +1,7 @@
 """Calls: argument evaluation, Python call binding, contract application, inlining, opaque callees."""
 import ast
+import os
+import sys
 import z3
 
 from .sorts import (Val, Ev, SeqV, SeqE, SetV, MapV, I, B, S, clsof, issub, cls_module, cls_name,
@@ -329,6 +331,7 @@ class CallMixin:
             fid = s.new_frame(f.x.get("env"), f.x["module"])
             s.frames[fid].update(frame)
             s.frames[fid]["$cls"] = f.x.get("cls")
+            s.frames[fid]["$fn"] = fn
             s.fid = fid
             s.depth += 1
             saved_yh = s.yield_handler
@@ -486,7 +489,40 @@ class CallMixin:
                 continue
             s = r.st
             fr = self.resolve_defaults(s, r.val, f) if f is not None else r.val
-            # parameters typed by the callee contract: unbox where the contract declares a type
+            # parameters typed by the callee contract: the declared type is part of its precondition -- an obligation at the call site
+            # (what from_val would *assume* about a value of that type, collected on a scratch state) -- and only then used
+            if fn is not None and self.cur is not None:
+                name0 = c.qualname
+                for p, h in c.types.items():
+                    if p not in fr or not h or h in ("Any", "val") or not isinstance(h, str):
+                        continue
+                    v0 = fr[p]
+                    if v0.k in ("tuple", "func", "bound", "builtin", "ext", "meth", "module", "ctxvar", "specfun", "cls", "genexp", "ctxmgr", "dictview", "seq", "sset", "cset", "sdict"):
+                        continue
+                    try:
+                        bv = box(v0)
+                    except Unsupported:
+                        continue
+                    if v0.k == "val" and v0.h and v0.h not in ("Any", "val"):
+                        # the value already carries a declared type (a typed field / typed-dict entry it was read from): that
+                        # declaration is what the engine relies on wherever the value is used, here as well
+                        try:
+                            self.from_val(s, v0.t, v0.h)
+                        except (Unsupported, SpecError):
+                            pass
+                    s2 = State()
+                    s2.heap = dict(s.heap)
+                    s2.heap0 = s.heap0
+                    try:
+                        self.from_val(s2, bv, h)
+                    except (Unsupported, SpecError):
+                        continue
+                    if s2.pc:
+                        g = z3.simplify(z3.And(*s2.pc))
+                        if os.environ.get("PYVC_DBG_TYPES") and z3.is_false(g):
+                            print("TYPE-DBG", name0, p, h, v0, [str(x)[:200] for x in s2.pc], file=sys.stderr)
+                        if not z3.is_true(g):
+                            self.emit(s, "pre@%s:type-of-%s" % (name0, p), g, "pre", c.props)
             for p, h in c.types.items():
                 if p in fr and fr[p].k == "val" and h and not h.startswith("Opt["):
                     fr[p] = self.concretize(s, SV("val", fr[p].t, h=h))
@@ -585,6 +621,9 @@ class CallMixin:
                 if rs.get("iff") and rs.get("when"):
                     s.assume(z3.Not(self.spec_eval(s, rs["when"], fid, old_heap, entry, {})))
             result = self.sym(s, "ret_" + name.split(".")[-1], c.returns) if c.returns != "none" else SV("none")
+            if result.k == "val" and not result.h:
+                # whatever a call returns exists: a reference result denotes an object allocated by now (language-level fact, E11)
+                s.assume(z3.Implies(Val.is_RefV(result.t), z3.And(Val.rv(result.t) >= 1, Val.rv(result.t) <= a1)))
             for label, src, props in c.ensures:
                 s.assume(self.spec_eval(s, src, fid, old_heap, entry, {"result": result}))
             self.run_after(s, "after", name, n, fid, old_heap, entry, {"result": result}, c.extra.get("ghosts", {}) if c is self.cur else ())
